@@ -156,11 +156,12 @@ func (w *World) Locksets(fns []*ssa.Function) *LockInfo {
 	}
 	sites := map[*ssa.Function][]site{}
 	valueUse := map[*ssa.Function]bool{}
+	localClosure := map[*ssa.Function]bool{}
 	for _, f := range fns {
 		instrsOf(f, func(in ssa.Instruction) {
 			if ci, ok := in.(ssa.CallInstruction); ok {
 				if _, isGo := in.(*ssa.Go); !isGo {
-					if cal := ci.Common().StaticCallee(); cal != nil && inScope[cal] {
+					if cal := calleeOf(ci.Common()); cal != nil && inScope[cal] {
 						sites[cal] = append(sites[cal], site{f, in})
 					}
 				}
@@ -168,6 +169,9 @@ func (w *World) Locksets(fns []*ssa.Function) *LockInfo {
 			var ops []*ssa.Value
 			for _, op := range in.Operands(ops) {
 				if fv, ok := (*op).(*ssa.Function); ok && inScope[fv] {
+					if _, isMC := in.(*ssa.MakeClosure); isMC {
+						continue // judged by how the closure value is used (below)
+					}
 					if ci, ok := in.(ssa.CallInstruction); ok && ci.Common().Value == *op {
 						if _, isGo := in.(*ssa.Go); !isGo {
 							continue
@@ -177,6 +181,12 @@ func (w *World) Locksets(fns []*ssa.Function) *LockInfo {
 				}
 				if mc, ok := (*op).(*ssa.MakeClosure); ok {
 					if fv, ok := mc.Fn.(*ssa.Function); ok {
+						// a closure that is only ever called directly where it was made (the callee
+						// operand of plain calls) runs under its callers' locks like any helper
+						if c, isCall := in.(*ssa.Call); isCall && c.Call.Value == *op {
+							localClosure[fv] = true
+							continue
+						}
 						valueUse[fv] = true
 					}
 				}
@@ -184,7 +194,7 @@ func (w *World) Locksets(fns []*ssa.Function) *LockInfo {
 		})
 	}
 	for _, f := range fns {
-		if len(sites[f]) == 0 || valueUse[f] || externallyCallable(f) || f.Parent() != nil {
+		if len(sites[f]) == 0 || valueUse[f] || externallyCallable(f) || (f.Parent() != nil && !localClosure[f]) {
 			li.Entry[f] = LockSet{}
 		} else {
 			li.Entry[f] = all.clone() // ⊤, lowered by iteration
@@ -197,7 +207,7 @@ func (w *World) Locksets(fns []*ssa.Function) *LockInfo {
 			li.flow(f)
 		}
 		for _, f := range fns {
-			if len(sites[f]) == 0 || valueUse[f] || f.Parent() != nil || externallyCallable(f) {
+			if len(sites[f]) == 0 || valueUse[f] || (f.Parent() != nil && !localClosure[f]) || externallyCallable(f) {
 				continue
 			}
 			var meet LockSet
